@@ -9,6 +9,9 @@ import sys
 
 
 def build(construct, n):
+    if construct.endswith('+multi'):
+        # the pathological statement is not the last one of the input
+        return build(construct[:-6], n) + '; select 2; select 3 from t;'
     if construct == 'open_parens':
         return 'select ' + '(' * n
     if construct == 'parens':
@@ -161,6 +164,9 @@ def main():
         st = sqlparse.parse('select a from b where c = 1')
         if len(st) != 1 or st[0].get_type() != 'SELECT':
             res['after'] = 'later parse() gave %r' % (st,)
+        sp = sqlparse.split('select 1 from t; select 2')
+        if sp != ['select 1 from t;', 'select 2']:
+            res['after'] = 'later split() gave %r' % ([x[:40] for x in sp],)
     except BaseException as exc:
         res['after'] = 'later call raised %r' % (exc,)
     print(json.dumps(res))
